@@ -254,7 +254,7 @@ def trace_violation(e, rj, cls):
         'summary': {'grammar': e.gid, 'rules': ['%s -> %s%s' % (l, ' '.join(r) or 'eps', ' [%d]' % p if p else '') for (l, r, p) in e.g.rules],
                     'input': bytes(t['bytes']).decode('latin-1'), 'options': {'verbose': t['verbose'], 'ws': t['ws'], 'nl': t['nl'], 'stream': t['stream']},
                     'class': cls, 'spec_expected': rj['why'], 'real_event': evs[pos - 1] if 0 < pos <= len(evs) else None, 'real_ok': t['ok']},
-        'kind': 'parser', 'gname': e.g.name, 'mode': e.mode, 'gid': e.gid, 'dflt': list(getattr(e, 'dflt', ())), 'lexterms': getattr(e, 'lexterms', None), 'lexshape': getattr(e, 'lexshape', 'list'), 'clex': getattr(e, 'clex', False), 'ctxr': list(getattr(e, 'ctx', ())), 'postprec': list(getattr(e, 'postprec', ())), 'defines': list(getattr(e, 'defines', ())), 'noval': list(getattr(e, 'noval', ())), 'nvterms': list(getattr(e, 'nvterms', ())), 'ctx': t.get('ctx', 0),
+        'kind': 'parser', 'gname': e.g.name, 'mode': e.mode, 'gid': e.gid, 'dflt': list(getattr(e, 'dflt', ())), 'lexterms': getattr(e, 'lexterms', None), 'lexshape': getattr(e, 'lexshape', 'list'), 'clex': getattr(e, 'clex', False), 'ctxr': list(getattr(e, 'ctx', ())), 'postprec': list(getattr(e, 'postprec', ())), 'defines': list(getattr(e, 'defines', ())), 'noval': list(getattr(e, 'noval', ())), 'nvterms': list(getattr(e, 'nvterms', ())), 'tkinds': {str(k): v for k, v in getattr(e, 'tkinds', {}).items()}, 'ctx': t.get('ctx', 0),
         'grammar': {'nts': e.g.nts, 'ts': e.g.ts, 'root': e.g.root, 'rules': e.g.rules, 'tprec': e.g.tprec, 'tassoc': e.g.tassoc},
         'bytes': t['bytes'], 'ws': t['ws'], 'nl': t['nl'], 'verbose': t['verbose'], 'stream': t['stream'], 'buf': t['buf']}
 
@@ -454,7 +454,7 @@ def check_C02(tier, seed):
             for b in ins[:150 if tier == 'quick' else 1200]:
                 st = rng.choice([0, 0, 0, 1, 2])
                 pipeline.add_jobs(e, [b], buf=rng.choice([0, 1, 3]), stream=st, verbose=bool(rng.getrandbits(1)), ws=rng.choice([1, 1, 0]), nl=rng.choice([1, 1, 0]),
-                                  ctx=(rng.choice([1, 2, 3, 4, 5]) if (ctx and st == 0) else 0), tag='x')
+                                  ctx=(rng.choice([1, 2, 3, 4, 5]) if (ctx and st == 0) else (rng.choice([0, 1, 2]) if (ctx and st == 1) else 0)), tag='x')
             cross.append(e)
     entries += cross
     res, work = prun.run(entries, 'C02', design_L=L if tier == 'quick' else 5, do_product=True, design_only={e.gid for e in entries if e not in cross},
@@ -807,6 +807,11 @@ def check_C05(tier, seed):
                 nassign += 1
             except ValueError:
                 pass
+    # the operators declared as string / regex terms (each constructor overload carries precedence and associativity itself)
+    kinds = ['string', 'regex', 'regexn']
+    for gi, g in enumerate(bases):
+        for k in range(1 if tier == 'quick' else 3):
+            entries.append(pipeline.gen_entry(g, gid='%s@tk%d' % (g.name, k), tkinds={i: kinds[(i + gi + k) % 3] for i in range(len(g.ts))}))
     # random ambiguous grammars with random precedence declarations
     for i in range(20 if tier == 'quick' else 300):
         g = gengram.random_grammar(rng, 'rp%d_%d' % (seed, i), n_nt=rng.choice([1, 2]), n_t=3, max_rhs=3, prec=True)
@@ -2428,7 +2433,7 @@ def replay(pid, path):
         elif v.get('lexterms'):
             e = pipeline.lex_entry(v['gname'], [tuple(t) for t in v['lexterms']], v.get('lexshape', 'list'))
         elif v['mode'] == 'gen':
-            e = pipeline.gen_entry(g, dflt=v.get('dflt', ()), ctx=v.get('ctxr', ()), postprec=v.get('postprec', ()), defines=v.get('defines', ()), noval=v.get('noval', ()), nvterms=v.get('nvterms', ()))
+            e = pipeline.gen_entry(g, dflt=v.get('dflt', ()), ctx=v.get('ctxr', ()), postprec=v.get('postprec', ()), defines=v.get('defines', ()), noval=v.get('noval', ()), nvterms=v.get('nvterms', ()), tkinds={int(k): x for k, x in (v.get('tkinds') or {}).items()})
         else:
             e = pipeline.host_entry(g, int(v['mode'][4:]))
         e.jobs = [('%s:replay' % e.gid, int(v.get('buf', 0)), int(v.get('stream', 0)), int(v.get('verbose', 1)), int(v['ws']), int(v['nl']), list(v['bytes']), int(v.get('ctx', 0)))]
